@@ -21,6 +21,7 @@ import (
 	"encoding/json"
 	"fmt"
 	"io"
+	"log"
 	"os"
 	"os/exec"
 	"path/filepath"
@@ -110,6 +111,58 @@ type c12Result struct {
 const c12DefaultTimeoutMs = 5000
 const c12HeapLimit = 2 << 30
 
+// ---------- log.Fatal trap ----------
+
+// log.Fatal* writes its message through the standard logger and then calls os.Exit(1). The trap is
+// installed as the logger's output: when a write arrives from log.Fatal* it panics with the message
+// and the call stack, which the case's recover turns into outcome "exit" with a frame to blame
+// (instead of a dead worker and no stack). Other log output is dropped.
+type c12FatalTrap struct{}
+
+type c12FatalSentinel struct {
+	msg    string
+	frames []string
+}
+
+func (c12FatalTrap) Write(p []byte) (int, error) {
+	pcs := make([]uintptr, 64)
+	n := runtime.Callers(1, pcs)
+	fr := runtime.CallersFrames(pcs[:n])
+	var after []string
+	fatal := false
+	for {
+		f, more := fr.Next()
+		if fatal {
+			if strings.HasSuffix(f.Function, "c12CaseGoroutine") || strings.HasSuffix(f.Function, "c12Protect") {
+				break
+			}
+			after = append(after, f.Function)
+		} else if strings.HasPrefix(f.Function, "log.Fatal") || strings.HasPrefix(f.Function, "log.(*Logger).Fatal") {
+			fatal = true
+		}
+		if !more {
+			break
+		}
+	}
+	if fatal {
+		panic(c12FatalSentinel{msg: strings.TrimSpace(string(p)), frames: after})
+	}
+	return len(p), nil
+}
+
+func c12InstallFatalTrap() {
+	log.SetFlags(0)
+	log.SetOutput(c12FatalTrap{})
+}
+
+// c12Recovered turns a recovered panic value into a result (the caller fills in the frames of a real panic).
+func c12FatalResult(r interface{}) (c12Result, bool) {
+	if s, ok := r.(c12FatalSentinel); ok {
+		return c12Result{Outcome: "exit", PType: "log.Fatal", Msg: s.msg, Frames: s.frames}, true
+	}
+	return c12Result{}, false
+}
+
 // ---------- worker ----------
 
 func c12RunCase(c c12Case) error {
@@ -182,6 +235,12 @@ func c12CaseGoroutine(c c12Case, done chan<- c12Result) {
 	res := c12Result{}
 	defer func() {
 		if r := recover(); r != nil {
+			if fres, ok := c12FatalResult(r); ok {
+				res = fres
+				res.WallMs = time.Since(t0).Milliseconds()
+				done <- res
+				return
+			}
 			res.Outcome = "panic"
 			res.Msg = fmt.Sprint(r)
 			res.PType = fmt.Sprintf("%T", r)
@@ -295,6 +354,7 @@ func c12WorkerMain() {
 	// backstop for the heap watchdog
 	_ = syscall.Setrlimit(syscall.RLIMIT_AS, &syscall.Rlimit{Cur: 24 << 30, Max: 24 << 30})
 	debug.SetTraceback("all")
+	c12InstallFatalTrap()
 	in := bufio.NewReaderSize(os.Stdin, 1<<20)
 	out := bufio.NewWriter(os.Stdout)
 	reply := func(r c12Result) {
@@ -609,6 +669,9 @@ func c12PanicShape(r c12Result) string {
 var c12LogStamp = regexp.MustCompile(`^\d{4}/\d{2}/\d{2} \d{2}:\d{2}:\d{2} `)
 
 func c12ExitClass(r c12Result) string {
+	if r.PType == "log.Fatal" {
+		return "exit:log.Fatal:" + c12KFrame(r.Frames)
+	}
 	lines := strings.Split(strings.TrimSpace(r.Msg), "\n")
 	// runtime fatal error?
 	for i, l := range lines {
@@ -759,6 +822,7 @@ func runC12(r *Run, rng *Rng, tier string) error {
 		"kio.ByteReader(+ByteWriter) and resource.Factory.SliceFromBytes; core cases: kyaml Lookup/LookupCreate/fieldspec.Filter on mutated documents, outcome class " +
 		"compared with the Coq model. non-trivial = the unmutated tree built successfully and the mutant differs from it; distinct by hash of the case"
 	known := c12KnownClasses()
+	c12InstallFatalTrap() // core cases run in this process
 
 	// 1. corpus witnesses of the known findings (and regression cases), 2. a sample of unmutated
 	// trees (the generator must produce mostly valid input), 3. the mutants - one batch, corpus first
